@@ -172,8 +172,8 @@ impl Prop for Replies {
     }
     fn cases(tier: Tier) -> u32 {
         match tier {
-            Tier::Quick => 24_000,
-            Tier::Thorough => 3_000_000,
+            Tier::Quick => 200_000,
+            Tier::Thorough => 8_000_000,
         }
     }
     fn floors() -> Vec<(&'static str, u32)> {
